@@ -63,33 +63,33 @@ theorem take_append_one {α : Type} (l : List α) (x : α) : (l ++ [x]).take l.l
 /-- driver = spec one nesting level further down, for every well-formed `D` -/
 structure Hyp (env : Env) (ctx : Frame) (f : Nat) : Prop where
   list : ∀ (D : Nat → List (List Item)), WF D → ∀ (cur : Option Nat) (blk : Bool) (k : Nat)
-      (rcur : Option Nat) (disc ext : Bool) (outer : Nat) (items : List Item) (st : St),
+      (rcur : Option Nat) (disc ext : Bool) (outer : Nat) (ae : AE) (items : List Item) (st : St),
       (∀ n, cur = some n → rcur = some n) → (cur.isSome = true → blk = true) →
       itemsOK cur blk items = true → Good D cur blk k st →
-      evalImpl env ctx f rcur disc ext outer items st =
-        liftS ((specAll env ctx f).list D (cur.map (fun n => (n, k))) disc ext outer items st.frames) st
-  chain : ∀ (chain : List Nat) (layout : List Item) (st : St) (rcur : Option Nat) (disc : Bool) (outer : Nat),
+      evalImpl env ctx f rcur disc ext outer ae items st =
+        liftS ((specAll env ctx f).list D (cur.map (fun n => (n, k))) disc ext outer ae items st.frames) st
+  chain : ∀ (chain : List Nat) (layout : List Item) (st : St) (rcur : Option Nat) (disc : Bool) (outer : Nat) (ae : AE),
       ChainSt env chain st → layoutOK layout = true → chain ≠ [] →
-      outFr (evalImpl env ctx f rcur disc false outer layout st) =
-        (specAll env ctx f).chain chain disc outer layout st.frames
+      outFr (evalImpl env ctx f rcur disc false outer ae layout st) =
+        (specAll env ctx f).chain chain disc outer ae layout st.frames
 
 theorem Hyp.body {env : Env} {ctx : Frame} {f : Nat} (h : Hyp env ctx f)
-    (D : Nat → List (List Item)) (hwf : WF D) (n k : Nat) (body : List Item) (disc : Bool) (outer : Nat)
+    (D : Nat → List (List Item)) (hwf : WF D) (n k : Nat) (body : List Item) (disc : Bool) (outer : Nat) (ae : AE)
     (st : St) (hb : (D n)[k]? = some body) (hg : Good D (some n) true k st) :
-    evalImpl env ctx f (some n) disc false outer body st =
-      liftS ((specAll env ctx f).body D n k disc outer st.frames) st := by
+    evalImpl env ctx f (some n) disc false outer ae body st =
+      liftS ((specAll env ctx f).body D n k disc outer ae st.frames) st := by
   cases f with
   | zero => simp [evalImpl, specAll, liftS]
   | succ f =>
-    have := h.list D hwf (some n) true k (some n) disc false outer body st (fun _ h => h) (fun _ => rfl) (hwf n k body hb) hg
+    have := h.list D hwf (some n) true k (some n) disc false outer ae body st (fun _ h => h) (fun _ => rfl) (hwf n k body hb) hg
     rw [this]
     simp only [specAll, Option.map_some, hb]
 
 theorem callBlock_sim {env : Env} {ctx : Frame} {f : Nat} (h : Hyp env ctx f)
-    (D : Nat → List (List Item)) (hwf : WF D) (cur : Option Nat) (k m : Nat) (disc : Bool) (outer : Nat)
+    (D : Nat → List (List Item)) (hwf : WF D) (cur : Option Nat) (k m : Nat) (disc : Bool) (outer : Nat) (ae : AE)
     (st : St) (hg : Good D cur true k st) (hm : ∀ n, cur = some n → n < m) :
-    callBlock (evalImpl env ctx f) disc outer m st =
-      liftS (specBlock (specAll env ctx f) D disc outer m st.frames) st := by
+    callBlock (evalImpl env ctx f) disc outer ae m st =
+      liftS (specBlock (specAll env ctx f) D disc outer ae m st.frames) st := by
   have hd0 : st.depth m = 0 := hg.above rfl m hm
   unfold callBlock specBlock
   rw [show st.blocks m = D m from by rw [hg.blocks]]
@@ -114,17 +114,17 @@ theorem callBlock_sim {env : Env} {ctx : Frame} {f : Nat} (h : Hyp env ctx f)
             apply hg.above rfl
             intro n hn
             exact Nat.lt_trans (hm n hn) (hm' m rfl)
-        rw [h.body D hwf m 0 b disc outer _ hb hg']
+        rw [h.body D hwf m 0 b disc outer ae _ hb hg']
         simp only []
-        cases (specAll env ctx f).body D m 0 disc outer (st.frames ++ [[]]) with
+        cases (specAll env ctx f).body D m 0 disc outer ae (st.frames ++ [[]]) with
         | error e => simp [liftS]
         | ok r => obtain ⟨o, fs⟩ := r; simp [liftS]
 
 theorem performSuper_sim {env : Env} {ctx : Frame} {f : Nat} (h : Hyp env ctx f)
-    (D : Nat → List (List Item)) (hwf : WF D) (n k : Nat) (disc : Bool) (outer : Nat)
+    (D : Nat → List (List Item)) (hwf : WF D) (n k : Nat) (disc : Bool) (outer : Nat) (ae : AE)
     (st : St) (hg : Good D (some n) true k st) :
-    performSuper (evalImpl env ctx f) (some n) disc outer st =
-      liftS (specSuper (specAll env ctx f) D (some (n, k)) disc outer st.frames) st := by
+    performSuper (evalImpl env ctx f) (some n) disc outer ae st =
+      liftS (specSuper (specAll env ctx f) D (some (n, k)) disc outer ae st.frames) st := by
   unfold performSuper specSuper
   obtain ⟨hdn, hk⟩ := hg.level n rfl
   simp only []
@@ -146,9 +146,9 @@ theorem performSuper_sim {env : Env} {ctx : Frame} {f : Nat} (h : Hyp env ctx f)
           have hne : m ≠ n := by omega
           simp only [setAt, hne, if_false]
           exact hg.above rfl m (by intro n' hn'; cases hn'; exact this)
-      rw [h.body D hwf n (k + 1) body disc outer _ hbody hg']
+      rw [h.body D hwf n (k + 1) body disc outer ae _ hbody hg']
       simp only []
-      cases (specAll env ctx f).body D n (k + 1) disc outer (st.frames ++ [[]]) with
+      cases (specAll env ctx f).body D n (k + 1) disc outer ae (st.frames ++ [[]]) with
       | error e => simp [liftS]
       | ok r =>
         obtain ⟨o, fs⟩ := r
@@ -189,10 +189,10 @@ theorem include_sim {env : Env} {ctx : Frame} {f : Nat} (h : Hyp env ctx f) (hen
           exact this.1
         have hc := h.chain [t] T.layout
           { st with blocks := prepare T.blocks, depth := fun _ => 0, loaded := [] } rcur disc
-          (outer + INCLUDE_COST) (initChainSt env t T hT st) hlay (by simp)
+          (outer + INCLUDE_COST) T.ae (initChainSt env t T hT st) hlay (by simp)
         simp only [] at hc
         rw [← hc]
-        cases evalImpl env ctx f rcur disc false (outer + INCLUDE_COST) T.layout
+        cases evalImpl env ctx f rcur disc false (outer + INCLUDE_COST) T.ae T.layout
           { st with blocks := prepare T.blocks, depth := fun _ => 0, loaded := [] } with
         | error e => simp [outFr, liftS]
         | ok r => obtain ⟨o, st'⟩ := r; simp [outFr, liftS]
@@ -263,30 +263,30 @@ theorem cont_finish (R' : SRes) (st : St)
 
 theorem sim_prefix {env : Env} {ctx : Frame} {f : Nat} (h : Hyp env ctx f) (henv : EnvOK env)
     (D : Nat → List (List Item)) (hwf : WF D)
-    (cur : Option Nat) (blk : Bool) (k : Nat) (rcur : Option Nat) (disc0 ext0 : Bool) (outer : Nat)
+    (cur : Option Nat) (blk : Bool) (k : Nat) (rcur : Option Nat) (disc0 ext0 : Bool) (outer : Nat) (ae : AE)
     (parent : Option (List Item))
     (hrc : ∀ n, cur = some n → rcur = some n) (hblk : cur.isSome = true → blk = true)
     (items : List Item)
     (hit : ∀ it ∈ items, itemOK cur blk it = true ∨ (parent.isSome = true ∧ isExtends it = true))
     (ys : List Item) (st : St) (hg : Good D cur blk k st) :
-    stepItems ⟨env, ctx, rcur, disc0, ext0, outer⟩ (evalImpl env ctx f) parent (items ++ ys) st =
+    stepItems ⟨env, ctx, rcur, disc0, ext0, outer, ae⟩ (evalImpl env ctx f) parent (items ++ ys) st =
       thenStepsF (specItems env ctx (specAll env ctx f) D (cur.map (fun n => (n, k)))
-          (disc0 || parent.isSome) (ext0 || parent.isSome) outer items st.frames)
-        (fun fs => stepItems ⟨env, ctx, rcur, disc0, ext0, outer⟩ (evalImpl env ctx f) parent ys
+          (disc0 || parent.isSome) (ext0 || parent.isSome) outer ae items st.frames)
+        (fun fs => stepItems ⟨env, ctx, rcur, disc0, ext0, outer, ae⟩ (evalImpl env ctx f) parent ys
           { st with frames := fs }) := by
   induction items generalizing st with
   | nil =>
     simp only [List.nil_append, specItems, thenStepsF]
-    cases stepItems ⟨env, ctx, rcur, disc0, ext0, outer⟩ (evalImpl env ctx f) parent ys st with
+    cases stepItems ⟨env, ctx, rcur, disc0, ext0, outer, ae⟩ (evalImpl env ctx f) parent ys st with
     | error e => rfl
     | ok r => obtain ⟨o, st', p⟩ := r; simp
   | cons it rest ih =>
     have hit1 := hit it (by simp)
-    have hG : ∀ fs, (fun st' => stepItems ⟨env, ctx, rcur, disc0, ext0, outer⟩ (evalImpl env ctx f) parent (rest ++ ys) st')
+    have hG : ∀ fs, (fun st' => stepItems ⟨env, ctx, rcur, disc0, ext0, outer, ae⟩ (evalImpl env ctx f) parent (rest ++ ys) st')
           { st with frames := fs } =
         thenStepsF (specItems env ctx (specAll env ctx f) D (cur.map (fun n => (n, k)))
-            (disc0 || parent.isSome) (ext0 || parent.isSome) outer rest fs)
-          (fun fs => stepItems ⟨env, ctx, rcur, disc0, ext0, outer⟩ (evalImpl env ctx f) parent ys
+            (disc0 || parent.isSome) (ext0 || parent.isSome) outer ae rest fs)
+          (fun fs => stepItems ⟨env, ctx, rcur, disc0, ext0, outer, ae⟩ (evalImpl env ctx f) parent ys
             { st with frames := fs }) := by
       intro fs
       exact ih (fun it hm => hit it (List.mem_cons_of_mem _ hm)) { st with frames := fs } (hg.setFrames fs)
@@ -311,7 +311,7 @@ theorem sim_prefix {env : Env} {ctx : Frame} {f : Nat} (h : Hyp env ctx f) (henv
         subst hb
         have hm : ∀ n, cur = some n → n < m := by
           intro n hn; subst hn; simpa using hrank
-        rw [callBlock_sim h D hwf cur k m _ outer st hg hm]
+        rw [callBlock_sim h D hwf cur k m _ outer ae st hg hm]
         exact cont_finish _ st _ _ _ hG
     | super =>
       simp only [stepItems, specItems]
@@ -324,7 +324,7 @@ theorem sim_prefix {env : Env} {ctx : Frame} {f : Nat} (h : Hyp env ctx f) (henv
       have hb := hblk rfl; subst hb
       have hr := hrc n rfl; subst hr
       simp only [Option.map_some] at hG ⊢
-      rw [performSuper_sim h D hwf n k _ outer st hg]
+      rw [performSuper_sim h D hwf n k _ outer ae st hg]
       exact cont_finish _ st _ _ _ hG
     | setSuper v =>
       simp only [stepItems, specItems]
@@ -337,20 +337,20 @@ theorem sim_prefix {env : Env} {ctx : Frame} {f : Nat} (h : Hyp env ctx f) (henv
       have hb := hblk rfl; subst hb
       have hr := hrc n rfl; subst hr
       simp only [Option.map_some] at hG ⊢
-      rw [performSuper_sim h D hwf n k false outer st hg]
-      cases specSuper (specAll env ctx f) D (some (n, k)) false outer st.frames with
+      rw [performSuper_sim h D hwf n k false outer ae st hg]
+      cases specSuper (specAll env ctx f) D (some (n, k)) false outer ae st.frames with
       | error e => rfl
       | ok r =>
         obtain ⟨o, fs'⟩ := r
         simp only [liftS]
-        exact cont_finish (.ok ([], store fs' v (.str (String.join o)))) st _ _ _ hG
+        exact cont_finish (.ok ([], store fs' v (captured ae o))) st _ _ _ hG
     | setSelf v m =>
       simp only [stepItems, specItems]
       cases hc : (ext0 || parent.isSome) with
       | true =>
         simp only [if_true]
         rw [hc] at hG
-        exact cont_finish (.ok ([], store st.frames v (.str ""))) st _ _ _ hG
+        exact cont_finish (.ok ([], store st.frames v (captured ae []))) st _ _ _ hG
       | false =>
         simp only [Bool.false_eq_true, if_false]
         have hp : parent.isSome = false := by
@@ -364,14 +364,14 @@ theorem sim_prefix {env : Env} {ctx : Frame} {f : Nat} (h : Hyp env ctx f) (henv
         subst hb
         have hm : ∀ n, cur = some n → n < m := by
           intro n hn; subst hn; simpa using hrank
-        rw [callBlock_sim h D hwf cur k m false outer st hg hm]
-        cases specBlock (specAll env ctx f) D false outer m st.frames with
+        rw [callBlock_sim h D hwf cur k m false outer ae st hg hm]
+        cases specBlock (specAll env ctx f) D false outer ae m st.frames with
         | error e => rfl
         | ok r =>
           obtain ⟨o, fs'⟩ := r
           simp only [liftS]
           rw [hc] at hG
-          exact cont_finish (.ok ([], store fs' v (.str (String.join o)))) st _ _ _ hG
+          exact cont_finish (.ok ([], store fs' v (captured ae o))) st _ _ _ hG
     | «extends» exec t =>
       simp only [stepItems, specItems]
       cases exec with
@@ -429,16 +429,16 @@ theorem sim_prefix {env : Env} {ctx : Frame} {f : Nat} (h : Hyp env ctx f) (henv
             · simpa [itemOK] using h1
             · simp [isExtends] at h1
           have hrun : ∀ fs : List Frame,
-              evalImpl env ctx f rcur (disc0 || parent.isSome) (ext0 || parent.isSome) outer body
+              evalImpl env ctx f rcur (disc0 || parent.isSome) (ext0 || parent.isSome) outer ae body
                   { ({ st with frames := st.frames ++ [[]] } : St) with frames := fs } =
                 liftS ((specAll env ctx f).list D (cur.map (fun n => (n, k))) (disc0 || parent.isSome)
-                  (ext0 || parent.isSome) outer body fs)
+                  (ext0 || parent.isSome) outer ae body fs)
                   { ({ st with frames := st.frames ++ [[]] } : St) with frames := fs } := by
             intro fs
-            exact h.list D hwf cur blk k rcur _ _ outer body _ hrc hblk hok (hg.setFrames fs)
+            exact h.list D hwf cur blk k rcur _ _ outer ae body _ hrc hblk hok (hg.setFrames fs)
           rw [loop_sim _ _ { st with frames := st.frames ++ [[]] } hrun v vals st.frames.length]
           cases specLoop ((specAll env ctx f).list D (cur.map (fun n => (n, k))) (disc0 || parent.isSome)
-              (ext0 || parent.isSome) outer body) v vals st.frames.length (st.frames ++ [[]]) with
+              (ext0 || parent.isSome) outer ae body) v vals st.frames.length (st.frames ++ [[]]) with
           | error e => rfl
           | ok r =>
             obtain ⟨o, fs'⟩ := r
@@ -461,19 +461,31 @@ theorem sim_prefix {env : Env} {ctx : Frame} {f : Nat} (h : Hyp env ctx f) (henv
               { st with frames := [[], [(arg, Val.str val)]] } :=
             ⟨hg.blocks, (by intro n hn; cases hn), (by intro hb; cases hb)⟩
           have := h.list D hwf none false k none false false
-            (outer + (store st.frames m Val.opaque).length + MACRO_COST) body _ (by intro n hn; cases hn) (by intro hc; cases hc) hok hg2
+            (outer + (store st.frames m Val.opaque).length + MACRO_COST) ae body _ (by intro n hn; cases hn) (by intro hc; cases hc) hok hg2
           simp only [Option.map_none] at this
           rw [this]
           cases (specAll env ctx f).list D none false false
-              (outer + (store st.frames m Val.opaque).length + MACRO_COST) body [[], [(arg, Val.str val)]] with
+              (outer + (store st.frames m Val.opaque).length + MACRO_COST) ae body [[], [(arg, Val.str val)]] with
           | error e => rfl
           | ok r =>
             obtain ⟨o, fs'⟩ := r
             simp only [liftS]
             exact cont_finish (.ok (if (disc0 || parent.isSome) = true then [] else o, store st.frames m .opaque)) st _ _ _ hG
+    | autoesc m body =>
+      simp only [stepItems, specItems]
+      cases hx : (body.any isExtends || body.any isAutoesc) with
+      | true => simp [thenStepsF]
+      | false =>
+        simp only [Bool.false_eq_true, if_false]
+        have hok : itemsOK cur blk body = true := by
+          rcases hit1 with h1 | h1
+          · simpa [itemOK] using h1
+          · simp [isExtends] at h1
+        rw [h.list D hwf cur blk k rcur _ _ outer m body st hrc hblk hok hg]
+        exact cont_finish _ st _ _ _ hG
     | text s =>
       simp only [stepItems, specItems]
-      cases varItem ctx (disc0 || parent.isSome) _ st.frames with
+      cases varItem ctx (disc0 || parent.isSome) ae _ st.frames with
       | none => rfl
       | some r =>
         cases r with
@@ -483,7 +495,7 @@ theorem sim_prefix {env : Env} {ctx : Frame} {f : Nat} (h : Hyp env ctx f) (henv
           exact cont_finish (.ok (o, fs')) st _ _ _ hG
     | emitVar v =>
       simp only [stepItems, specItems]
-      cases varItem ctx (disc0 || parent.isSome) _ st.frames with
+      cases varItem ctx (disc0 || parent.isSome) ae _ st.frames with
       | none => rfl
       | some r =>
         cases r with
@@ -493,7 +505,7 @@ theorem sim_prefix {env : Env} {ctx : Frame} {f : Nat} (h : Hyp env ctx f) (henv
           exact cont_finish (.ok (o, fs')) st _ _ _ hG
     | setVar v s =>
       simp only [stepItems, specItems]
-      cases varItem ctx (disc0 || parent.isSome) _ st.frames with
+      cases varItem ctx (disc0 || parent.isSome) ae _ st.frames with
       | none => rfl
       | some r =>
         cases r with
@@ -503,7 +515,7 @@ theorem sim_prefix {env : Env} {ctx : Frame} {f : Nat} (h : Hyp env ctx f) (henv
           exact cont_finish (.ok (o, fs')) st _ _ _ hG
     | defMacro v s =>
       simp only [stepItems, specItems]
-      cases varItem ctx (disc0 || parent.isSome) _ st.frames with
+      cases varItem ctx (disc0 || parent.isSome) ae _ st.frames with
       | none => rfl
       | some r =>
         cases r with
@@ -513,7 +525,7 @@ theorem sim_prefix {env : Env} {ctx : Frame} {f : Nat} (h : Hyp env ctx f) (henv
           exact cont_finish (.ok (o, fs')) st _ _ _ hG
     | emitAttr v a =>
       simp only [stepItems, specItems]
-      cases varItem ctx (disc0 || parent.isSome) _ st.frames with
+      cases varItem ctx (disc0 || parent.isSome) ae _ st.frames with
       | none => rfl
       | some r =>
         cases r with
@@ -523,7 +535,7 @@ theorem sim_prefix {env : Env} {ctx : Frame} {f : Nat} (h : Hyp env ctx f) (henv
           exact cont_finish (.ok (o, fs')) st _ _ _ hG
     | emitKeys v =>
       simp only [stepItems, specItems]
-      cases varItem ctx (disc0 || parent.isSome) _ st.frames with
+      cases varItem ctx (disc0 || parent.isSome) ae _ st.frames with
       | none => rfl
       | some r =>
         cases r with
@@ -533,7 +545,7 @@ theorem sim_prefix {env : Env} {ctx : Frame} {f : Nat} (h : Hyp env ctx f) (henv
           exact cont_finish (.ok (o, fs')) st _ _ _ hG
     | callVar v =>
       simp only [stepItems, specItems]
-      cases varItem ctx (disc0 || parent.isSome) _ st.frames with
+      cases varItem ctx (disc0 || parent.isSome) ae _ st.frames with
       | none => rfl
       | some r =>
         cases r with
@@ -543,7 +555,7 @@ theorem sim_prefix {env : Env} {ctx : Frame} {f : Nat} (h : Hyp env ctx f) (henv
           exact cont_finish (.ok (o, fs')) st _ _ _ hG
     | required =>
       simp only [stepItems, specItems]
-      cases varItem ctx (disc0 || parent.isSome) _ st.frames with
+      cases varItem ctx (disc0 || parent.isSome) ae _ st.frames with
       | none => rfl
       | some r =>
         cases r with
@@ -676,39 +688,39 @@ theorem hyp_zero (env : Env) (ctx : Frame) : Hyp env ctx 0 :=
 theorem hyp_succ (env : Env) (ctx : Frame) (henv : EnvOK env) (f : Nat) (h : Hyp env ctx f) :
     Hyp env ctx (f + 1) := by
   constructor
-  · intro D hwf cur blk k rcur disc ext outer items st hrc hb hok hg
-    · have hp := sim_prefix h henv D hwf cur blk k rcur disc ext outer none hrc hb items
+  · intro D hwf cur blk k rcur disc ext outer ae items st hrc hb hok hg
+    · have hp := sim_prefix h henv D hwf cur blk k rcur disc ext outer ae none hrc hb items
         (fun it hm => Or.inl ((itemsOK_iff cur blk items).1 hok it hm)) [] st hg
       simp only [List.append_nil, Option.isSome_none, Bool.or_false, stepItems] at hp
       simp only [evalImpl, hp, specAll]
-      cases specItems env ctx (specAll env ctx f) D (cur.map fun n => (n, k)) disc ext outer items st.frames with
+      cases specItems env ctx (specAll env ctx f) D (cur.map fun n => (n, k)) disc ext outer ae items st.frames with
       | error e => simp [thenStepsF, liftS]
       | ok r => obtain ⟨o, fs⟩ := r; simp [thenStepsF, liftS]
-  · intro chain layout st rcur disc outer hst hlay hne
+  · intro chain layout st rcur disc outer ae hst hlay hne
     have hwf := WF_defs env henv chain
     have hg : Good (defs env chain) none true 0 st :=
       ⟨hst.blocks, (by intro n hn; cases hn), fun _ m _ => hst.depth m⟩
     simp only [evalImpl, specAll, specChain]
     cases hs : splitExtends layout with
     | none =>
-      have hp := sim_prefix h henv _ hwf none true 0 rcur disc false outer none
+      have hp := sim_prefix h henv _ hwf none true 0 rcur disc false outer ae none
         (by intro n hn; cases hn) (by intro hc; cases hc) layout
         (fun it hm => Or.inl (splitExtends_none layout hs hlay it hm)) [] st hg
       simp only [List.append_nil, Option.map_none, Option.isSome_none, Bool.or_false, stepItems] at hp
       rw [hp]
-      cases specItems env ctx (specAll env ctx f) (defs env chain) none disc false outer layout st.frames with
+      cases specItems env ctx (specAll env ctx f) (defs env chain) none disc false outer ae layout st.frames with
       | error e => simp [thenStepsF, outFr]
       | ok r => obtain ⟨o, fs⟩ := r; simp [thenStepsF, outFr]
     | some r =>
       obtain ⟨pre, t, post⟩ := r
       obtain ⟨hl, hpre, hpost⟩ := splitExtends_some layout pre post t hs hlay
-      have hp := sim_prefix h henv _ hwf none true 0 rcur disc false outer none
+      have hp := sim_prefix h henv _ hwf none true 0 rcur disc false outer ae none
         (by intro n hn; cases hn) (by intro hc; cases hc) pre
         (fun it hm => Or.inl (hpre it hm)) (.extends true t :: post) st hg
       simp only [Option.map_none, Option.isSome_none, Bool.or_false] at hp
       rw [hl, hp]
       simp only []
-      cases specItems env ctx (specAll env ctx f) (defs env chain) none disc false outer pre st.frames with
+      cases specItems env ctx (specAll env ctx f) (defs env chain) none disc false outer ae pre st.frames with
       | error e => simp [thenStepsF, outFr]
       | ok r1 =>
         obtain ⟨o, fs1⟩ := r1
@@ -740,17 +752,17 @@ theorem hyp_succ (env : Env) (ctx : Frame) (henv : EnvOK env) (f : Nat) (h : Hyp
                 { blocks := appendBlocks st.blocks T.blocks, depth := st.depth, loaded := t :: st.loaded,
                   frames := fs1 } :=
               ⟨(hst1 fs1).blocks, (by intro n hn; cases hn), fun _ m _ => hst.depth m⟩
-            have hp2 := sim_prefix h henv _ (WF_defs env henv (chain ++ [t])) none true 0 rcur disc false outer
+            have hp2 := sim_prefix h henv _ (WF_defs env henv (chain ++ [t])) none true 0 rcur disc false outer ae
               (some T.layout) (by intro n hn; cases hn) (by intro hc; cases hc) post
               (fun it hm => (hpost it hm).elim Or.inl (fun hx => Or.inr ⟨rfl, hx⟩)) [] _ hg1
             simp only [List.append_nil, Option.map_none, Option.isSome_some, Bool.or_true, stepItems] at hp2
             rw [hp2]
-            cases specItems env ctx (specAll env ctx f) (defs env (chain ++ [t])) none true true outer post fs1 with
+            cases specItems env ctx (specAll env ctx f) (defs env (chain ++ [t])) none true true outer ae post fs1 with
             | error e => simp [thenStepsF, outFr]
             | ok r2 =>
               obtain ⟨o2, fs2⟩ := r2
               simp only [thenStepsF, List.append_nil]
-              have hc := h.chain (chain ++ [t]) T.layout _ rcur disc outer (hst1 fs2) (henv.layout hT) (by simp)
+              have hc := h.chain (chain ++ [t]) T.layout _ rcur disc outer ae (hst1 fs2) (henv.layout hT) (by simp)
               simp only [] at hc
               rw [← hc]
               have key : ∀ E : Res,
